@@ -45,8 +45,8 @@ func parseMem(input []byte) parseResult {
 type schedReader struct {
 	data    []byte
 	sched   []int
-	eofWith bool  // return io.EOF together with the last data
-	failAt  int   // fail after this many bytes in total (-1 = never)
+	eofWith bool // return io.EOF together with the last data
+	failAt  int  // fail after this many bytes in total (-1 = never)
 	failErr error
 	off     int
 	reads   int
